@@ -94,7 +94,7 @@ def run(tier, seed):
     # ---- code -> spec: random longer strings, verdicts judged by TLC
     traces = []
     texts = []
-    n = 3000 if thorough else 600
+    n = 30000 if thorough else 600
     for i in range(n):
         k = rng.choice([7, 8, 10, 20, 60, 254, 255, 256, 300])
         mode = i % 4
